@@ -60,8 +60,19 @@ Fixpoint sl_lexq (st : sl_qstate) (s : str) : bool :=
       end
   end.
 
-(* what the lexer accepts *)
-Definition sl_quoted_body_lexer_ok (body : str) : bool := sl_lexq SlQStart body.
+(* what the lexer accepted before the repair 4dbec7a (first character not tested for line terminators);
+   kept for the refuted witness only *)
+Definition sl_quoted_body_lexer_ok_old (body : str) : bool := sl_lexq SlQStart body.
+(* what the lexer accepts: since 4dbec7a State::StringLiteralStart has an arm for line terminators *)
+Definition sl_quoted_body_lexer_ok (body : str) : bool :=
+  match body with
+  | [] => true
+  | c :: r =>
+      if c =? c_quote then false
+      else if c =? c_bslash then sl_lexq SlQBackslash r
+      else if sl_line_terminator c then false
+      else sl_lexq SlQNormal r
+  end.
 (* what the grammar allows: StringCharacter* ; the lexer's rule with the first character checked too *)
 Definition sl_quoted_body_valid (body : str) : bool := sl_lexq SlQNormal body.
 
